@@ -1181,6 +1181,7 @@ package gocql
 //@   count_calls nextIter.fetch fetchAsync readColumn scanColumn
 //@   assume iter.pos < iter.numRows ==> iter.framer != nil
 //@   requires iter_wf(iter)
+//@   ensures iter_wf(iter)
 // an iterator in error yields nothing and asks for nothing
 //@   ensures[C15] old(iter.err) != nil ==> !result && nextIter_fetch_calls == 0 && fetchAsync_calls == 0 && readColumn_calls == 0
 // after the last page (no follow-up): normal end, no request
@@ -1196,6 +1197,34 @@ package gocql
 //@   before[C04] scanColumn: readColumn_calls == rangeindex + 2 && same(arg0, readColumn_ret0) && readColumn_ret1 == nil && same(arg2, dest[i:])
 //@   loop 0: invariant 0 <= i && i <= len(dest) && readColumn_calls == rangeindex + 1 && iter.err == nil && nextIter_fetch_calls == 0
 //@   loop 0: step i == prev(i) + scanColumn_ret0 && scanColumn_ret1 == nil && readColumn_calls == prev(readColumn_calls) + 1
+
+// The map/slice consumers read rows through Scan; what they return follows the iterator: SliceMap's error is
+// the iterator's error when it stops (a failed fetch of a later page is not an early normal end), MapScan
+// reports a row exactly when Scan did.
+//@ func (iter *Iter) RowData
+//@   trusted builds one destination per column (per tuple element) by reflection; reads the metadata only
+//@   modifies nothing
+//@   ensures len(result0.Values) == len(result0.Columns)
+
+//@ func (r *RowData) rowMap
+//@   trusted copies the scanned values into the caller's map (reflection)
+//@   preserves_types Iter framer nextIter Query Conn Session
+
+//@ func (iter *Iter) SliceMap
+//@   props C15
+//@   count_calls Scan
+//@   requires iter_wf(iter)
+//@   ensures[C15] old(iter.err) != nil ==> Scan_calls == 0
+//@   ensures[C15] result1 == iter.err
+//@   ensures[C15] iter.err != nil ==> result0 == nil
+//@   loop 0: invariant iter_wf(iter) && dataToReturn != nil
+
+//@ func (iter *Iter) MapScan
+//@   props C15
+//@   count_calls Scan
+//@   requires iter_wf(iter)
+//@   ensures[C15] old(iter.err) != nil ==> !result && Scan_calls == 0
+//@   ensures[C15] old(iter.err) == nil ==> Scan_calls == 1 && result == Scan_ret0
 
 //@ func (is *iterScanner) Next
 //@   props C04 C05
